@@ -58,7 +58,7 @@ def run(ctx):
                    'slices.SortFunc / BinarySearchFunc contracts', 'harness/cmd/c11gen + harness/remx + lean/Drivers/C11.lean', 'Lean compiler for the driver executable']
     ctx.assumptions = ['DiffClassLaws (same-major, same-major.minor, same are transitive; diff a a = Same): hypothesis of C11_cumulative, evaluated on every generated universe (field laws=)',
                        'HonoursPins (re-resolution yields the pinned version): hypothesis of C11_cumulative / C11_terminates, observed on every override case (req = final)',
-                       'the order is the one the library uses (mavenutil.CompareVersions for Maven, semver.NPM.Compare for npm); distinct known versions compare unequal in the override universes',
+                       'the Maven order is deps.dev semver.Maven (third party) with the two exceptions mavenutil.CompareVersions documents (guava flavours, commons date versions), restated in harness/remx SpecMavenCompare: rank tables come from that restatement and the real comparator is compared with it on every pair of every sg / up / ov universe (field cmp=); npm: semver.NPM.Compare',
                        'Relax: requirements that are not semver constraints (dist-tags) are outside the model']
     ctx.rule = ('rx = (level, single comparators and || unions of 2-3 islands with releases in the gaps, 1-12 npm versions incl. pre-releases and 0.x, half of the universes with dist-tags: latest below / inside / above the range, next, beta) through the real NpmRelaxer.Relax, old and new requirement resolved by the real npm resolver; sg = (level, plain/range requirement, 1-13 Maven versions, '
                 'a few guava/commons universes) through the real suggestMavenVersion; ov = (level, direct or transitive dependency on g:p, 1-12 Maven versions, 1-3 vulnerabilities with fixed / '
@@ -111,6 +111,9 @@ def run(ctx):
         r = fi.get('r', fi.get('_', ''))
         if r == 'panic':
             return 'the real code panicked'
+        if fi.get('cmp') == '0':
+            return ('mavenutil.CompareVersions differs in sign from the specified order on a pair of versions of this universe (Maven order, in which different '
+                    'spellings of one version are equal, with the guava-flavour and commons date-version exceptions)')
         if op == 'cf':
             if fm.get('wf') == '1' and fi.get('get') != fm.get('spec'):
                 return ('NewConfigFromStrings: the level Config.Get returns for a queried package is not the one the entries say (last valid '
